@@ -44,6 +44,16 @@ def rng_for(*descr):
     return np.random.default_rng([seed() & 0xFFFFFFFF] + [crc(d) for d in descr])
 
 
+def rng_pinned(*descr):
+    """RNG that depends on the descriptor only, NOT on VERIF_SEED.  Used by the recognition properties
+    (C02, C03, C04, C18) whose subject is heuristic code: every explored input is then a fixed, reproducible
+    input identified by its descriptor, so a genuine finding can be listed by key and a different failing
+    input is still reported (DESIGN 3.6)."""
+    import numpy as np
+
+    return np.random.default_rng([20261002] + [crc(d) for d in descr])
+
+
 def scratch(name):
     d = os.path.join(CACHE, "run", "%s-%d" % (name, os.getpid()))
     os.makedirs(d, exist_ok=True)
